@@ -24,8 +24,8 @@ from typing import Any, Dict, Iterable, List, Optional
 
 VERIF = Path(__file__).resolve().parents[2]
 SPEC_DIR = VERIF / "spec"
-EVIDENCE_DIR = VERIF / "evidence"
-REPLAY_DIR = VERIF / "replays"
+EVIDENCE_DIR = Path(os.environ.get("PBV_EVIDENCE_DIR") or (VERIF / "evidence"))   # redirected by the mutant self-tests
+REPLAY_DIR = Path(os.environ.get("PBV_REPLAY_DIR") or (VERIF / "replays"))
 REPO = Path(os.environ.get("PYBC_REPO", "/repo")).resolve()
 TLA_CP = "/opt/veriftools/tla/tla2tools.jar:/opt/veriftools/tla/CommunityModules-deps.jar"
 
@@ -318,7 +318,7 @@ class Check:
     # -- finish
     def finish(self) -> int:
         wall = time.time() - self.t0
-        EVIDENCE_DIR.mkdir(exist_ok=True)
+        EVIDENCE_DIR.mkdir(parents=True, exist_ok=True)
         for f in self.findings:
             fid = f.get("id")
             if f.get("status") == "open" and f.get("property") == self.prop:
